@@ -107,4 +107,285 @@ theorem removeChild_spec (s : Seg) (p a : Nat) (l : List Nat) (hk : LocalKids s 
       have hjp : j ≠ pp := fun hh => hj (by rw [hh]; simp)
       rw [get_upd_ne _ _ _ _ hja, get_upd_ne _ _ _ _ hjp]
 
+/-- `removeChild` followed by `attachTo(NULL)` (the order of `Seg.unparent`) -/
+theorem detached_of_removed {s s1 : Seg} {p a : Nat} {l : List Nat} (h : RemovedChild s s1 p a l) (has : a < s.slots.size) :
+    Detached s (s1.upd a fun sl => sl.setParent none) p a l := by
+  have has1 : a < s1.slots.size := by rw [h.size]; exact has
+  refine ⟨by simp [h.free], fun j => ?_, fun j => ?_, fun j hj => ?_, ?_, ?_, fun j hj => ?_⟩
+  · rw [upd_copied_keep]; exact h.cop j; intro _; rfl
+  · by_cases hja : j = a
+    · rw [hja, get_upd_self _ _ _ has1, if_pos rfl]; rfl
+    · rw [get_upd_ne _ _ _ _ hja, if_neg hja]; exact h.par j
+  · rw [upd_child_keep]; exact h.chi j hj; intro _; rfl
+  · rw [upd_child_keep]
+    · exact sibSeg_upd_keep _ _ (fun _ => rfl) h.kidsP
+    · intro _; rfl
+  · rw [upd_sibling_keep]; exact h.sibA; intro _; rfl
+  · rw [upd_sibling_keep]; exact h.sibO j hj; intro _; rfl
+
+/-- `Seg.unparent` detaches a real attached slot -/
+theorem unparent_detached {s : Seg} {p a : Nat} {l : List Nat} (hk : Kids s p l) (ha : a ∈ l) (hpa : p ≠ a) :
+    Detached s (s.unparent a) p a l := by
+  have hap := (hk.mem a ha).1
+  unfold Seg.unparent
+  rw [hap]
+  exact detached_of_removed (removeChild_spec s p a l hk.local ha hpa) (hk.inb a ha)
+
+theorem unparent_root {s : Seg} {a : Nat} (h : (s.get a).parent = none) : s.unparent a = s := by
+  unfold Seg.unparent; rw [h]
+
+/-- `Seg.unparent` keeps the forest; afterwards the slot is a root -/
+theorem unparent_forest {s : Seg} (hF : Forest s) {a : Nat} (ha : Real s a) :
+    Forest (s.unparent a) ∧ ((s.unparent a).get a).parent = none ∧ Real (s.unparent a) a ∧ (s.unparent a).free = s.free ∧
+      (∀ j, ((s.unparent a).get j).copied = (s.get j).copied) ∧ ((s.unparent a).get a).child = (s.get a).child := by
+  cases hp : (s.get a).parent with
+  | none =>
+    rw [unparent_root hp]
+    exact ⟨hF, hp, ha, rfl, fun _ => rfl, rfl⟩
+  | some p =>
+    have hpr := (hF.par a p ha hp).1
+    obtain ⟨l, hk⟩ := hF.kids p hpr
+    have hal := hk.all a ha hp
+    have hpa : p ≠ a := fun hh => hF.not_self ha (by rw [hp, hh])
+    have hd := unparent_detached hk hal hpa
+    refine ⟨forest_of_detached hF hpr hk hal hd, by rw [hd.par a, if_pos rfl], ?_, hd.free, hd.cop, hd.chi a (Ne.symm hpa)⟩
+    unfold Real; rw [hd.cop a]; exact ha
+
+/-! ## `detachChildren` -/
+
+theorem detachChildren_nochild (s : Seg) (a : Nat) (h : (s.get a).child = none) : ∀ fuel, detachChildren s a fuel = s := by
+  intro fuel
+  cases fuel with
+  | zero => rfl
+  | succ f => unfold detachChildren; rw [h]
+
+theorem detachChildren_spec : ∀ (l : List Nat) (fuel : Nat) (s : Seg) (a : Nat), LocalKids s a l →
+    (∀ j ∈ l, (s.get j).parent = some a) → a ∉ l → l.length ≤ fuel → DetachedAll s (detachChildren s a fuel) a l := by
+  intro l
+  induction l with
+  | nil =>
+    intro fuel s a hk _ _ _
+    have hc : (s.get a).child = none := hk.chain
+    rw [detachChildren_nochild s a hc]
+    exact ⟨rfl, fun _ => rfl, fun j => by simp, hc, fun _ _ => rfl, fun j => by simp⟩
+  | cons c rest ih =>
+    intro fuel s a hk hpar hal hlen
+    cases fuel with
+    | zero => simp at hlen
+    | succ f =>
+      have hc : (s.get a).child = some c := hk.chain.1
+      have hcp : (s.get c).parent = some a := hpar c List.mem_cons_self
+      have hac : a ≠ c := fun hh => hal (by rw [hh]; exact List.mem_cons_self)
+      have hcr : c ∉ rest := (List.nodup_cons.mp hk.nodup).1
+      unfold detachChildren
+      rw [hc]
+      simp only [hcp, if_true]
+      have lk1 : LocalKids (s.upd c fun sl => sl.setParent none) a (c :: rest) :=
+        ⟨by rw [upd_child_keep]; exact sibSeg_upd_keep _ _ (fun _ => rfl) hk.chain; intro _; rfl, hk.nodup,
+         fun j hj => by simpa using hk.inb j hj⟩
+      have rc := removeChild_spec _ a c (c :: rest) lk1 List.mem_cons_self hac
+      have lk2 : LocalKids (removeChild (s.upd c fun sl => sl.setParent none) a c).2 a rest :=
+        ⟨by have := rc.kidsP; rw [List.erase_cons_head] at this; exact this, (List.nodup_cons.mp hk.nodup).2,
+         fun j hj => by rw [rc.size]; simpa using hk.inb j (List.mem_cons_of_mem _ hj)⟩
+      have hpar2 : ∀ j ∈ rest, ((removeChild (s.upd c fun sl => sl.setParent none) a c).2.get j).parent = some a := by
+        intro j hj
+        have hjc : j ≠ c := fun hh => hcr (hh ▸ hj)
+        rw [rc.par j, get_upd_ne _ _ _ _ hjc]
+        exact hpar j (List.mem_cons_of_mem _ hj)
+      have d2 := ih f _ a lk2 hpar2 (fun hh => hal (List.mem_cons_of_mem _ hh)) (by simp at hlen; omega)
+      have hcs : c < s.slots.size := hk.inb c List.mem_cons_self
+      refine ⟨by rw [d2.free, rc.free]; simp, fun j => ?_, fun j => ?_, d2.chiA, fun j hj => ?_, fun j => ?_⟩
+      · rw [d2.cop j, rc.cop j, upd_copied_keep]; intro _; rfl
+      · rw [d2.par j]
+        by_cases hjr : j ∈ rest
+        · simp [hjr]
+        · rw [if_neg hjr, rc.par j]
+          by_cases hjc : j = c
+          · rw [hjc, get_upd_self _ _ _ hcs]; simp; rfl
+          · rw [get_upd_ne _ _ _ _ hjc]; simp [hjc, hjr]
+      · rw [d2.chi j hj, rc.chi j hj, upd_child_keep]; intro _; rfl
+      · rw [d2.sib j]
+        by_cases hjr : j ∈ rest
+        · simp [hjr]
+        · rw [if_neg hjr]
+          by_cases hjc : j = c
+          · rw [hjc, rc.sibA]; simp
+          · have hjl : j ∉ c :: rest := fun hh => by
+              rcases List.mem_cons.mp hh with h1 | h1
+              · exact hjc h1
+              · exact hjr h1
+            rw [rc.sibO j hjl, upd_sibling_keep, if_neg hjl]; intro _; rfl
+
+/-- `detachChildren` on a real slot of a forest: all its children become roots -/
+theorem detachChildren_forest {s : Seg} (hF : Forest s) {a : Nat} (ha : Real s a) :
+    Forest (detachChildren s a (s.slots.size + 1)) ∧ ((detachChildren s a (s.slots.size + 1)).get a).child = none ∧
+    ((detachChildren s a (s.slots.size + 1)).get a).parent = (s.get a).parent ∧
+    (detachChildren s a (s.slots.size + 1)).free = s.free ∧
+    (∀ j, ((detachChildren s a (s.slots.size + 1)).get j).copied = (s.get j).copied) := by
+  obtain ⟨l, hk⟩ := hF.kids a ha
+  have hal : a ∉ l := fun hh => hF.not_self ha (hk.mem a hh).1
+  have hd := detachChildren_spec l (s.slots.size + 1) s a hk.local (fun j hj => (hk.mem j hj).1) hal (by have := hk.length_le; omega)
+  exact ⟨forest_of_detachedAll hF ha hk hd, hd.chiA, by rw [hd.par a, if_neg hal], hd.free, hd.cop⟩
+
+/-! ## `child` followed by `attachTo` -/
+
+theorem child_attached {s : Seg} {p a : Nat} {l : List Nat} (hk : LocalKids s p l) (hal : a ∉ l) (hpa : p ≠ a)
+    (hps : p < s.slots.size) (has : a < s.slots.size) (hsib : (s.get a).sibling = none) :
+    (child s p a).1 = true ∧ Attached s ((child s p a).2.upd a fun sl => sl.setParent (some p)) p a l := by
+  rw [child_append s p a l hk.chain hal hpa hk.length_le]
+  refine ⟨rfl, ?_⟩
+  simp only []
+  rcases List.eq_nil_or_concat l with hl | ⟨pre, last, hl⟩
+  · subst hl
+    simp only [List.getLast?_nil, List.nil_append]
+    have has1 : a < (s.upd p fun sl => sl.setChild (some a)).slots.size := by simpa using has
+    refine ⟨by simp, fun j => ?_, fun j => ?_, fun j hj => ?_, ?_, fun j hj => ?_⟩
+    · rw [upd_copied_keep, upd_copied_keep] <;> (intro _; rfl)
+    · by_cases hja : j = a
+      · rw [hja, get_upd_self _ _ _ has1, if_pos rfl]; rfl
+      · rw [get_upd_ne _ _ _ _ hja, if_neg hja, upd_parent_keep]; intro _; rfl
+    · rw [upd_child_keep, get_upd_ne _ _ _ _ hj]; intro _; rfl
+    · rw [upd_child_keep, get_upd_self _ _ _ hps]
+      · refine ⟨rfl, ?_⟩
+        show ((_ : Seg).get a).sibling = none
+        rw [upd_sibling_keep, upd_sibling_keep]
+        · exact hsib
+        · intro _; rfl
+        · intro _; rfl
+      · intro _; rfl
+    · rw [upd_sibling_keep, upd_sibling_keep] <;> (intro _; rfl)
+  · rw [List.concat_eq_append] at hl
+    subst hl
+    have hgl : (pre ++ [last]).getLast? = some last := by simp
+    rw [hgl]
+    simp only []
+    have hls : last < s.slots.size := hk.inb last (by simp)
+    have hla : last ≠ a := fun hh => hal (by rw [← hh]; simp)
+    have hlp : last ∉ pre := fun hh => (List.nodup_append.mp hk.nodup).2.2 last hh last (by simp) rfl
+    have hapre : a ∉ pre := fun hh => hal (by simp [hh])
+    have has1 : a < (s.upd last fun sl => sl.setSibling (some a)).slots.size := by simpa using has
+    have hmid := sibSeg_mid (a := pre) (x := last) (b := []) (by simpa using hk.chain)
+    refine ⟨by simp, fun j => ?_, fun j => ?_, fun j hj => ?_, ?_, fun j hj => ?_⟩
+    · rw [upd_copied_keep, upd_copied_keep] <;> (intro _; rfl)
+    · by_cases hja : j = a
+      · rw [hja, get_upd_self _ _ _ has1, if_pos rfl]; rfl
+      · rw [get_upd_ne _ _ _ _ hja, if_neg hja, upd_parent_keep]; intro _; rfl
+    · rw [upd_child_keep, upd_child_keep] <;> (intro _; rfl)
+    · rw [upd_child_keep, upd_child_keep]
+      · show SibSeg _ _ (pre ++ [last] ++ [a]) none
+        rw [List.append_assoc, sibSeg_append]
+        refine ⟨some last, sibSeg_upd_keep _ _ (fun _ => rfl) (sibSeg_upd_notin _ _ hlp hmid.1), ?_⟩
+        refine ⟨rfl, ?_⟩
+        rw [get_upd_ne _ _ _ _ hla, get_upd_self _ _ _ hls]
+        refine ⟨rfl, ?_⟩
+        show ((_ : Seg).get a).sibling = none
+        rw [upd_sibling_keep, get_upd_ne _ _ _ _ (Ne.symm hla)]
+        · exact hsib
+        · intro _; rfl
+      · intro _; rfl
+      · intro _; rfl
+    · have hjl : j ≠ last := fun hh => hj (by rw [hh]; simp)
+      rw [upd_sibling_keep, get_upd_ne _ _ _ _ hjl]; intro _; rfl
+
+/-! ## the walk up the parent chain -/
+
+/-- if the walk ended before its fuel, it saw every ancestor: `found` is exact -/
+theorem chainUp_exact (s : Seg) (i : Nat) : ∀ (fuel : Nat) (o : Option Nat) (cnt : Nat) (found : Bool),
+    (chainUp s i fuel o cnt found).1 < cnt + fuel →
+    ((chainUp s i fuel o cnt found).2 = true ↔ found = true ∨ ∃ q, o = some q ∧ Anc s i q) := by
+  intro fuel
+  induction fuel with
+  | zero => intro o cnt found h; unfold chainUp at h; simp at h
+  | succ f ih =>
+    intro o cnt found h
+    cases o with
+    | none => unfold chainUp; simp
+    | some q =>
+      unfold chainUp at h ⊢
+      have h' : (chainUp s i f (s.get q).parent (cnt + 1) (found || q == i)).1 < cnt + 1 + f := by omega
+      rw [ih _ _ _ h']
+      constructor
+      · rintro (h1 | ⟨q', h1, h2⟩)
+        · simp only [Bool.or_eq_true, beq_iff_eq] at h1
+          rcases h1 with h1 | h1
+          · exact .inl h1
+          · exact .inr ⟨q, rfl, by rw [h1]; exact ⟨0, rfl⟩⟩
+        · by_cases hqi : q = i
+          · exact .inr ⟨q, rfl, by rw [hqi]; exact ⟨0, rfl⟩⟩
+          · exact .inr ⟨q, rfl, (anc_step hqi h1).mpr h2⟩
+      · rintro (h1 | ⟨q', h1, h2⟩)
+        · exact .inl (by simp [h1])
+        · cases h1
+          by_cases hqi : q = i
+          · exact .inl (by simp [hqi])
+          · cases hp : (s.get q).parent with
+            | none => exact absurd h2 (anc_root hqi hp)
+            | some pp => exact .inr ⟨pp, rfl, (anc_step hqi hp).mp h2⟩
+
+theorem chainUp_count (s : Seg) (i : Nat) : ∀ (fuel : Nat) (o : Option Nat) (cnt : Nat) (found : Bool),
+    cnt ≤ (chainUp s i fuel o cnt found).1 := by
+  intro fuel
+  induction fuel with
+  | zero => intro o cnt found; unfold chainUp; omega
+  | succ f ih =>
+    intro o cnt found
+    cases o with
+    | none => unfold chainUp; omega
+    | some q => unfold chainUp; have := ih (s.get q).parent (cnt + 1) (found || q == i); omega
+
+theorem chainDown_count (s : Seg) (sel : Slot → Option Nat) : ∀ (fuel : Nat) (o : Option Nat) (cnt : Nat),
+    cnt ≤ chainDown s sel fuel o cnt := by
+  intro fuel
+  induction fuel with
+  | zero => intro o cnt; unfold chainDown; omega
+  | succ f ih =>
+    intro o cnt
+    cases o with
+    | none => unfold chainDown; omega
+    | some q => unfold chainDown; have := ih (sel (s.get q)) (cnt + 1); omega
+
+/-! ## `attach.to` -/
+
+/-- `Seg.attach` keeps the forest -/
+theorem attach_forest {s : Seg} (hF : Forest s) {i other : Nat} (ws : Bool) (hi : Real s i) (ho : Real s other) (hio : i ≠ other)
+    (his : i < s.slots.size) (hos : other < s.slots.size) (hif : i ∉ s.free) (hof : other ∉ s.free) :
+    Forest (s.attach i other ws) ∧ (s.attach i other ws).free = s.free ∧
+      ∀ j, ((s.attach i other ws).get j).copied = (s.get j).copied := by
+  obtain ⟨hF1, hp1, hr1, hfree1, hcop1, _⟩ := unparent_forest hF hi
+  have hsz1 : (s.unparent i).slots.size = s.slots.size := (GrVerif.Action.unparent_same s i).size
+  unfold Seg.attach
+  simp only []
+  split
+  · rename_i hcond
+    have hcnt := hcond.1
+    have hfound : (chainUp (s.unparent i) i 200 (some other) 0 false).2 = false := by
+      have := hcond.2; simpa using this
+    -- the walk up ended before its fuel
+    have hlt : (chainUp (s.unparent i) i 200 (some other) 0 false).1 < 0 + 200 := by
+      have a1 := chainDown_count (s.unparent i) (·.child) 200 ((s.unparent i).get i).child (chainUp (s.unparent i) i 200 (some other) 0 false).1
+      have a2 := chainDown_count (s.unparent i) (·.sibling) 200 ((s.unparent i).get i).sibling
+        (chainDown (s.unparent i) (·.child) 200 ((s.unparent i).get i).child (chainUp (s.unparent i) i 200 (some other) 0 false).1)
+      omega
+    have hanc : ¬ Anc (s.unparent i) i other := fun hh => by
+      have := (chainUp_exact (s.unparent i) i 200 (some other) 0 false hlt).mpr (.inr ⟨other, rfl, hh⟩)
+      rw [hfound] at this; cases this
+    have ho1 : Real (s.unparent i) other := by unfold Real; rw [hcop1]; exact ho
+    obtain ⟨l, hk⟩ := hF1.kids other ho1
+    have hil : i ∉ l := fun hh => by rw [(hk.mem i hh).1] at hp1; cases hp1
+    have hsib : ((s.unparent i).get i).sibling = none := hF1.root i hr1 hp1
+    obtain ⟨hc1, hatt⟩ := child_attached hk.local hil (Ne.symm hio) (by rw [hsz1]; exact hos) (by rw [hsz1]; exact his) hsib
+    rw [if_pos hc1]
+    have hF2 := forest_of_attached hF1 ho1 hr1 hk hp1 hio hanc (by rw [hfree1]; exact hof) (by rw [hfree1]; exact hif) hatt
+    split
+    · have ts := TreeSame.upd ((child (s.unparent i) other i).2.upd i fun sl => sl.setParent (some other)) i
+        (fun sl => { sl with withX := sl.advX, withY := 0 }) (fun _ => ⟨rfl, rfl, rfl, rfl⟩)
+      refine ⟨forest_congr ts hF2, by rw [ts.free, hatt.free, hfree1], fun j => ?_⟩
+      rw [(ts.fld j).2.2.2, hatt.cop j, hcop1 j]
+    · have ts := TreeSame.upd ((child (s.unparent i) other i).2.upd i fun sl => sl.setParent (some other)) i
+        (fun sl => { sl with attX := (((child (s.unparent i) other i).2.upd i fun sl => sl.setParent (some other)).get other).advX, attY := 0 })
+        (fun _ => ⟨rfl, rfl, rfl, rfl⟩)
+      refine ⟨forest_congr ts hF2, by rw [ts.free, hatt.free, hfree1], fun j => ?_⟩
+      rw [(ts.fld j).2.2.2, hatt.cop j, hcop1 j]
+  · exact ⟨hF1, hfree1, hcop1⟩
+
 end GrVerif.Seg
